@@ -155,8 +155,7 @@ func (fc *FuncCtx) execInstr(fr *Frame, st *State, ins ssa.Instruction) {
 		}
 		ref := fc.newRef(st)
 		for _, g := range fc.p.ghostZero[typeKey(et)] {
-			h := "GH:" + g[0]
-			fc.p.registerHeap(h, ArraySort(SInt, SInt))
+			h := ghostFieldHeap(fc.p, g[0], false)
 			var n int64
 			fmt.Sscan(g[1], &n)
 			st.setH(h, Store(st.H(fc.p, h), ref, IntLit(n)))
@@ -664,10 +663,11 @@ func (fc *FuncCtx) lookup(fr *Frame, st *State, x *ssa.Lookup) {
 	if tb := fc.p.tableOfRef(xv.T); tb != nil {
 		dom = tb.domTerm(k)
 		if sortOf(mt.Elem()) == SSlice {
-			// nested table: produce a pseudo-slice addressed by the table
-			unsupp("lookup of nested table %s", tb.Name)
+			// nested table: the rows are constant arrays allocated before the function starts
+			val = tb.subSlice(k)
+		} else {
+			val = tb.valTerm(k)
 		}
-		val = tb.valTerm(k)
 		fc.note("table " + tb.Name + " read as an immutable constant (checked syntactically: no writer in the repository)")
 	} else {
 		d, vv, _ := fc.p.mapHeaps(mt)
